@@ -470,6 +470,7 @@ def oracle_layer(run, xm, cases, name, opts, clamp_need):
         run.violation("oracle:termination", {"what": "driver run did not finish within 600 s", "module": xm["text"][:3000]})
         return
     nrun = 0
+    shown = 0
     for i, c in enumerate(cases):
         o = out[2 * i:2 * i + 2]
         line = lines[2 * i + 1]
@@ -495,8 +496,12 @@ def oracle_layer(run, xm, cases, name, opts, clamp_need):
             elif c.get("known_reject") and ret == "-1":
                 run.known_finding(c["known_reject"], line)
             else:
-                run.violation("oracle:check_exact(%s)" % ("strings" if name == "C08-strings" else "wide"),
-                              dict(replay, what="asn_check_constraints returned %s, the constraints say %s" % (ret, want), command_line=line, c=o[1][:300], message=full))
+                shown += 1
+                if shown <= 6:           # vlib writes the first 20 violations of a run: leave room for the other layers
+                    run.violation("oracle:check_exact(%s)" % ("strings" if name == "C08-strings" else "wide"),
+                                  dict(replay, what="asn_check_constraints returned %s, the constraints say %s" % (ret, want), command_line=line, c=o[1][:300], message=full))
+                else:
+                    run.count(name + "_further_mismatches_not_listed")
         check_messages(run, line, parsed, clamp_need, names, replay)
     run.count(name + "_cases", nrun)
     if len(cases) > 3:
@@ -690,6 +695,10 @@ def main(tier):
                     oracle_layer(run, x, wcases, "C08-wide", opts, clamp_need)
                 tick("ran %s %s" % (tag, x["name"]))
         check_clamp_model(run, model, clamp_need)
+        kinds = {}
+        for v in run.violations:
+            kinds[v["kind"]] = kinds.get(v["kind"], 0) + 1
+        tick("violations by kind: %s" % kinds)
     except (BuildError, RuntimeError) as e:
         run.violation("build", {"what": str(e)[-2500:]}, no_input=True)
         return run.finish("proof", (nthm, ndis))
